@@ -108,6 +108,18 @@ def check_spec(case):
         d1j = json.loads(json.dumps(d1))
     except (TypeError, ValueError) as ex:
         return R([('json|not-serialisable', repr(ex))], nt=True)
+    # the export of a copy of the model is the export of the model
+    import copy as _copy
+    try:
+        dc = _copy.deepcopy(m).to_dict()
+        if _norm(dc) != _norm(d1):
+            diff = [k for k in sorted(set(d1) | set(dc), key=str) if _n1(d1.get(k, '<absent>')) != _n1(dc.get(k, '<absent>'))]
+            fails.append(('export|deepcopy-differs', 'to_dict() of a deep copy differs at %s: %r vs %r' % (
+                diff[:3], [d1.get(k, '<absent>') for k in diff[:3]], [dc.get(k, '<absent>') for k in diff[:3]])))
+    except sut.Watchdog:
+        raise
+    except Exception as ex:
+        fails.append(('export|deepcopy-raised:%s' % type(ex).__name__, repr(ex)[:200]))
     tricky_sheet = any(sheet_class_of(spec, b, s) == 'apostrophe'
                        for b, bk in enumerate(spec['books']) for s in range(len(bk['sheets'])))
     # (c) every exported formula parses back to the same expr
@@ -320,6 +332,30 @@ def _dictnums(tier):
     return G.specs(tier, max_books=1, wholecols=False, const=const, max_cells=8).map(lambda spec: {'k': 'spec', 'spec': spec, 'path': 'dict'})
 
 
+def placeholder_shapes():
+    """Fixed shapes around blank placeholders: rectangle P with two or three unpopulated cells, rectangle Q (and R) sharing
+    one of them and having fewer blanks; every order of the reading formulas; dict and file path."""
+    S = [0, 0]
+    geoms = {
+        # name: (populated cells, rectangles in 'more blanks first' order)
+        'col-row': ([(1, 1), (2, 2), (2, 3)], [[1, 1, 3, 1], [2, 1, 2, 3]]),                      # P=A1:A3 {A2,A3}; Q=A2:C2 {A2}
+        'col-longrow': ([(1, 1), (2, 2), (2, 3), (2, 4), (2, 5), (2, 6)], [[1, 1, 3, 1], [2, 1, 2, 6]]),
+        'block-col': ([(1, 1), (2, 2), (3, 1), (4, 1)], [[1, 1, 2, 2], [2, 1, 4, 1]]),            # P=A1:B2 {B1,A2}; Q=A2:A4 {A2}
+        'chain3': ([(1, 1), (2, 2), (3, 3), (4, 2)], [[1, 1, 3, 1], [3, 1, 3, 2], [3, 2, 4, 2]]),  # P {A2,A3}; Q=A3:B3 {A3,B3}; R=B3:B4 {B3}
+        'three-blanks': ([(1, 1), (2, 2), (3, 2), (3, 3)], [[1, 1, 4, 1], [2, 1, 2, 2], [3, 1, 3, 3]]),
+    }
+    import itertools
+    for gname, (pop, rects) in geoms.items():
+        for order in itertools.permutations(range(len(rects))):
+            cells = [{'at': S + [r, c], 'v': float(r * 10 + c)} for r, c in pop]
+            for j, i in enumerate(order):
+                r1, c1, r2, c2 = rects[i]
+                cells.append({'at': S + [6, 1 + j], 'f': ['fn', 'SUM', ['rng', S + [r1, c1, r2, c2]]]})
+            spec = {'books': [{'name': 'b0.xlsx', 'sheets': ['S1']}], 'cells': cells, 'names': []}
+            for path in ('dict', 'file'):
+                yield {'k': 'spec', 'spec': spec, 'path': path, 'shape': gname}
+
+
 STRATEGIES = {'tricky': _tricky, 'plain': _plain, 'dictnums': _dictnums}
 
 
@@ -329,4 +365,5 @@ def parts(tier, seed):
         ('hyp', 'tricky', 800 if q else 8000, 10),
         ('hyp', 'plain', 480 if q else 5000, 10),
         ('hyp', 'dictnums', 480 if q else 5000, 10),
+        ('enum', 'placeholder-shapes', list(placeholder_shapes()), 4, False),
     ]
